@@ -1,18 +1,22 @@
 #!/usr/bin/env python3
-"""Merges known_findings.d/*.json (lists of finding entries) into known_findings.json (run by hand at commit time)."""
+"""Rebuilds known_findings.json from known_findings.d/*.json (the per-property source of truth):
+`findings` = every finding entry of the .d files; `fixed` = fixed entries already present plus those of the .d
+files (order preserved). Run by hand at commit time; checks never write this file."""
 import glob, json, os
 HERE = os.path.dirname(os.path.dirname(os.path.abspath(__file__)))
 k = json.load(open(os.path.join(HERE, 'known_findings.json')))
-have = {f['id'] for f in k['findings']}
+findings, seen = [], set()
+fixed = list(k.get('fixed', []))
 for p in sorted(glob.glob(os.path.join(HERE, 'known_findings.d', '*.json'))):
     d = json.load(open(p))
     for f in d.get('findings', []):
-        if f['id'] in have:
-            k['findings'] = [x for x in k['findings'] if x['id'] != f['id']]
-        k['findings'].append(f)
-        have.add(f['id'])
+        if f['id'] not in seen:
+            findings.append(f)
+            seen.add(f['id'])
     for f in d.get('fixed', []):
-        if f not in k['fixed']:
-            k['fixed'].append(f)
+        if f not in fixed:
+            fixed.append(f)
+k['findings'] = findings
+k['fixed'] = [f for f in fixed if '<COMMIT>' not in f]
 json.dump(k, open(os.path.join(HERE, 'known_findings.json'), 'w'), indent=1, ensure_ascii=False)
 print(len(k['findings']), 'findings,', len(k['fixed']), 'fixed')
